@@ -111,5 +111,5 @@ def _wf_kind(msg):
 
 def run(rep):
     tier = rep.tier
-    st = plans.run_plan(rep, "vf.checks.c04", tier, plans.standard(tier, thorough_cap=1200, families="dep"))
+    st = plans.run_plan(rep, "vf.checks.c04", tier, plans.standard(tier, thorough_cap=250, families="dep"))
     fill_evidence(rep, st)
